@@ -204,12 +204,24 @@ func TestOracle(t *testing.T) {
 		t.Errorf("1e400 oracle wrong")
 	}
 	o, _ = NewNumOracle("1e308")
-	if o.CheckFloat(math.Inf(1)) != WrongValue || o.CheckFloat(1e308) != "" || o.CheckFloat(math.Nextafter(1e308, 0)) != WrongValueULP {
+	if o.CheckFloat(math.Inf(1)) != WrongValueNonFinite || o.CheckFloat(math.NaN()) != WrongValueNonFinite || o.CheckFloat(1e308) != "" || o.CheckFloat(math.Nextafter(1e308, 0)) != WrongValueInexact {
 		t.Errorf("1e308 oracle wrong")
 	}
 	o, _ = NewNumOracle("0.00000000000000000001")
 	if o.CheckFloat(1e-20) != "" || o.CheckText("001") != LostDigits || o.CheckFloat(0.766) != WrongValue || o.CheckText("1e-20") != "" {
 		t.Errorf("1e-20 oracle wrong")
+	}
+	o, _ = NewNumOracle("12345678901234567890.5e-5")
+	if o.CheckText("12345678901234567890.5e5") != LostExpSign || o.CheckText("12345678901234567890.5e-5") != "" || o.CheckText("1234567890123456789.5e5") != LostDigits {
+		t.Errorf("exp sign oracle wrong")
+	}
+	o, _ = NewNumOracle("1.00000000000000000000e-1")
+	if o.CheckText("100e-1") != LostDigits || o.CheckText("1e1") != LostExpSign || o.CheckText("100e-3") != "" {
+		t.Errorf("exp sign coincidence misjudged")
+	}
+	o, _ = NewNumOracle("1e-400")
+	if o.CheckFloat(5e-324) != WrongValueInexact || o.CheckFloat(-5e-324) != WrongValueInexact || o.CheckFloat(1e-300) != WrongValue {
+		t.Errorf("underflow oracle wrong")
 	}
 	o, _ = NewNumOracle("100")
 	if o.CheckInt(100) != "" || o.CheckFloat(100) != WrongKind {
